@@ -4,6 +4,7 @@ from models import cfg as M
 from sim.core import FAILED
 from props.c08 import probes, bound
 
+from props import scaled as SC
 ID = "C09"
 CASES = {"quick": 3000, "thorough": 20000}
 RULE = ("grammar workload of C08 (profiles forcing the suffix cache, the fast path of to_normal_form, A->A, unit "
@@ -17,6 +18,9 @@ ASSUMPTIONS = ["variable and terminal symbol sets are disjoint; in part of the c
 
 
 def gen(rng, tier):
+    sc = SC.maybe(rng, ID)
+    if sc is not None:
+        return sc
     if rng.chance(0.12):
         # user variables spelled like the fresh C#CNF#n names, together with long bodies sharing suffixes
         if rng.chance(0.6):
@@ -29,10 +33,18 @@ def gen(rng, tier):
 
 
 def shrink(case):
+    if SC.is_scaled(case):
+        return iter(())
+    return _shrink(case)
+
+
+def _shrink(case):
     return G.shrink_cfg(case)
 
 
 def run(case, out):
+    if SC.is_scaled(case):
+        return SC.run(case, out)
     ref = G.ref_of(case)
     out.shape = G.shape_digest(case)
     out.fault("value_hash" if case.get("hash") else "hashseed_only")
